@@ -54,6 +54,41 @@ def rolling {α β} (w : Nat) (f : List α → β) (rows : List (List α)) : Lis
 def rollingOld {α β} (w : Nat) (f : List α → β) (rows : List (List α)) : List (List β) :=
   rollingWith trimOld w f [] rows
 
+/-! ### `mode="same"`: one value per position, windows that do not fit in the row set to 0 -/
+
+/-- start of Python `row[s:]` for a row of length `len` -/
+def startIdx (len : Nat) (s : Int) : Nat := if s < 0 then len - s.natAbs else min len s.toNat
+
+/-- `row[s:] = 0` (`none` = no assignment) -/
+def zeroFrom {β} (zero : β) (s : Option Int) (row : List β) : List β :=
+  match s with
+  | none => row
+  | some s => row.take (startIdx row.length s) ++ List.replicate (row.length - startIdx row.length s) zero
+
+/-- re-wrap a full-length flat result by row lengths (safe shape: lengths sum to the data) -/
+def rewrapFull {β} : List Nat → List β → List (List β)
+  | [], _ => []
+  | l :: ls, c => c.take l :: rewrapFull ls (c.drop l)
+
+/-- the shipped rule: `out[..., (-w+1):] = 0` — for `w = 1` that is `out[..., 0:] = 0` -/
+def sameStartOld (w : Nat) : Option Int := some (-(w : Int) + 1)
+/-- the repaired rule: nothing is zeroed for `w = 1` -/
+def sameStartNew (w : Nat) : Option Int := if w ≤ 1 then none else some (-(w : Int) + 1)
+
+/-- `rolling_window(..., mode="same")`: `as_strided` yields one window per flat position (the last
+`w-1` of them run past the buffer: `tail` stands for whatever `f` returns on those), re-wrap with
+the row lengths, zero the last `w-1` columns of every row -/
+def rollingSameWith {α β} (start : Nat → Option Int) (w : Nat) (f : List α → β) (zero : β) (tail : List β)
+    (rows : List (List α)) : List (List β) :=
+  (rewrapFull (rows.map List.length) (windows w f rows.flatten ++ tail)).map (zeroFrom zero (start w))
+
+def rollingSame {α β} := @rollingSameWith α β sameStartNew
+def rollingSameOld {α β} := @rollingSameWith α β sameStartOld
+
+/-- per row: the values of the windows that fit, then zeros up to the row's length -/
+def specSame {α β} (w : Nat) (f : List α → β) (zero : β) (rows : List (List α)) : List (List β) :=
+  rows.map (fun r => windows w f r ++ List.replicate (r.length - (r.length + 1 - w)) zero)
+
 /-! ### k-mer hash and rendering -/
 
 def dot : List Nat → List Nat → Nat
